@@ -224,9 +224,21 @@ where
                                             );
                                         },
                                         Message::Data(data) => {
-                                            if taken.load(AtomicOrdering::Acquire) < max {
-                                                let taken =
-                                                    taken.fetch_add(1, AtomicOrdering::AcqRel) + 1;
+                                            // count the item and check the limit in one atomic step: with
+                                            // a separate load and fetch_add, two deliveries racing in from
+                                            // different threads could both pass the check
+                                            if let Ok(taken) = taken.fetch_update(
+                                                AtomicOrdering::AcqRel,
+                                                AtomicOrdering::Acquire,
+                                                |taken| {
+                                                    if taken < max {
+                                                        Some(taken + 1)
+                                                    } else {
+                                                        None
+                                                    }
+                                                },
+                                            ) {
+                                                let taken = taken + 1;
                                                 call!(
                                                     sink,
                                                     Message::Data(data),
